@@ -96,8 +96,27 @@ def r08_1(ctx: Ctx) -> None:
         if ok:
             ok = f"{gene}.is_contained_by({var})" in fact_texts(cfg, adds[0]) or \
                 any(txt(cond) == f"{gene}.is_contained_by({name_})" for name_, cond in loop_filters.get(id(loop), []))
-        ctx.ob("R08.1", REC, loop, qual, f"link into {name}", ok,
-               "the gene is added to each collection of the list that contains it", form=f"for {var} in {txt(loop.iter)}")
+        extra: List[str] = []
+        if ok:
+            # ... and to every one that does: nothing but the containment test stands between a member of the list and the add
+            from ..flow import path_facts
+            from ..astutil import ancestors as _anc
+            tops = enclosing_loops(loop, stop=func)
+            scope = tops[-1] if tops else loop
+            for expr, truth in path_facts(cfg, adds[0]):
+                if not any(a is scope for a in _anc(expr)):
+                    continue
+                text = txt(expr) if truth else f"not {txt(expr)}"
+                if text == f"{gene}.is_contained_by({var})":
+                    continue
+                if isinstance(expr, (ast.For, ast.comprehension)) or not isinstance(expr, ast.expr):
+                    continue
+                extra.append(text)
+        ctx.ob("R08.1", REC, loop, qual, f"link into {name}", ok and not extra,
+               "the gene is added to each collection of the list that contains it, and to every one that does",
+               detail="" if not extra else f"the add is also conditional on `{'`, `'.join(extra)}`: a collection that fails it "
+               "never receives genes added after it, while the same collection built after the genes holds them",
+               form=f"for {var} in {txt(loop.iter)}")
         # on every path through the function
         head = cfg.n(loop)
         # outermost loop header of this visit
